@@ -28,6 +28,7 @@ type EchoCfg struct {
 	MTU      int     `json:"mtu"`
 	MaxSteps int     `json:"max_steps"`
 	YieldP   float64 `json:"yield_p"`
+	Subnet4  bool    `json:"ipv4_subnet,omitempty"`      // the interface also owns the IPv4 subnet 32.1.13.0/24 (whose bytes are the first four of 2001:db8::/32)
 	Offload  bool    `json:"checksum_offload,omitempty"` // the NIC declares checksum offload (which covers TCP and UDP, not ICMP)
 }
 
@@ -37,6 +38,7 @@ func (scEcho) GenCfg(rng *sim.Rand, tier, prop, variant string) json.RawMessage 
 		c.YieldP = 0.2
 	}
 	c.Offload = rng.Chance(0.2)
+	c.Subnet4 = rng.Chance(0.2)
 	b, _ := json.Marshal(c)
 	return b
 }
@@ -69,6 +71,7 @@ type echoWorld struct {
 	pending    map[int][]*echoReq // burst id -> own-address v4 requests of that burst
 	second     bool               // second4 is currently assigned
 	noA4       bool               // the primary address A4 is currently removed
+	subnet4    bool               // the interface owns the IPv4 subnet 32.1.13.0/24
 	faultsSeen int64
 }
 
@@ -104,6 +107,11 @@ func (w *echoWorld) request(flags int, ident, seq uint16, n int, wait bool, burs
 		r.src, r.dst = peer6, A6
 		if dk != 0 {
 			r.dst = foreign6
+			if w.subnet4 {
+				// an IPv6 address that is nobody's here - its first four bytes lie inside the interface's IPv4 subnet
+				r.dst = tcpip.Address("\x20\x01\x0d\xb8\x00\x00\x00\x00\x00\x00\x00\x00\x00\x00\x00\x99")
+				w.Probes["ipv6_requests_to_an_address_resembling_the_ipv4_subnet"]++
+			}
 		}
 	} else {
 		r.src = peer4
@@ -427,6 +435,13 @@ func (scEcho) Run(t *testing.T, prop string, seed uint64, cfgRaw json.RawMessage
 	o := &RunOut{Cfg: cfgRaw}
 	bubble(t, func() {
 		w := &echoWorld{PeerWorld: NewPeerWorld(seed, uint32(cfg.MTU), NodeOpts{Offload: cfg.Offload})}
+		if cfg.Subnet4 {
+			if sn, err := tcpip.NewSubnet("\x20\x01\x0d\x00", "\xff\xff\xff\x00"); err == nil {
+				must(w.S.S.AddSubnet(1, ipv4.ProtocolNumber, sn), "AddSubnet")
+				w.subnet4 = true
+				w.S.Link.Addrs = nil // (an interface that owns a subnet answers from addresses beyond its assigned ones)
+			}
+		}
 		if cfg.Offload {
 			w.Mon.Offload = true
 			w.Probes["links_declaring_checksum_offload"]++
